@@ -141,7 +141,7 @@ def gen_case(rng, i, tier, stats):
         if utts:
             stats["extra"]["multi-utterance"] = stats["extra"].get("multi-utterance", 0) + 1
     case = {"id": f"g{i}", "model": model, "cfg": cfg, "gram": [gk, gram], "audio": [str(path), skip, start, n],
-            "chunkseq": chunkseq, "utts": utts,
+            "chunkseq": chunkseq, "utts": utts, "preend": int(rng.chance(0.3)),
             "addwords": addwords, "noise": noise, "tmatskip": (rng.choice([20, 60, 120]) if rng.chance(0.07) else 0),
             "audio_name": an, "mode": mode, "chunk": chunk, "partials": partials, "early": int(rng.chance(0.15)),
             "dumpsen": int(rng.chance(0.35))}
@@ -180,6 +180,7 @@ def case_text(case):
     if case["partials"]:
         ls.append("partial " + " ".join(str(p) for p in case["partials"]))
     ls.append(f"early {case.get('early', 0)}")
+    ls.append(f"preend {case.get('preend', 0)}")
     ls.append(f"dumpsen {case.get('dumpsen', 0)}")
     ls.append("run")
     return "\n".join(ls) + "\n"
@@ -294,6 +295,8 @@ def judge_block(case, hb, db, ci_names, stats):
     fpw = [(int(w[1]), w[2], int(w[3]), int(w[4]), int(w[5]), int(w[6])) for w in fp if int(w[1]) >= 0]
     stats["requests"] += 1
     stats["partial" if not tag.endswith("final") else "final"] += 1
+    if tag == "preend":
+        stats["requests_before_end_utt"] = stats.get("requests_before_end_utt", 0) + 1
     if tag.startswith("u") and tag.endswith("final"):
         stats["later_utterance_requests"] = stats.get("later_utterance_requests", 0) + 1
     if len(fp) != len(fpw):
